@@ -62,7 +62,7 @@ PLAN = {
                                          "Feat": '{"remote", "spawn", "finish", "ctx", "preserve"}'})],
         profiles=[dict(feat={"remote", "spawn", "finish", "ctx", "task", "preserve"}, nctx=4, ndest=1, init=[1], maxlen=45, shuffle=3, w_fin_ctx=0.0,
                        weights={"SerializeId": 3.0, "ContinueTask": 4.0, "Spawn": 2.0, "Preserve": 3.0, "CallPreserved": 4.0})],
-        extra="c06_once"),
+        extra="c06_once", fork=True),
     "C07": dict(
         mc=[("MC_Faults.cfg", {"MaxMsgs": 5}), ("MC_Typed.cfg", {"MaxMsgs": 5})],
         sim=[("MC_Typed.cfg", [1, 2], 2, {"NDest": 2, "MaxActs": 3, "MaxMsgs": 8, "MaxFaults": 5, "InitDests": "D12",
@@ -75,7 +75,7 @@ PLAN = {
                                                  "Feat": '{"finish", "ctx", "dfault", "task"}'})],
         profiles=[dict(feat={"finish", "ctx", "task", "tb"}, ndest=4, init=[1, 2, 3, 4], dfault=0.35, maxlen=30, fault_file=True),
                   dict(feat={"finish", "ctx", "task", "dests"}, ndest=4, init=[], dfault=0.3, maxlen=30, fault_file=True)],
-        extra="c08_concurrent"),
+        extra="c08_concurrent", route=True),
     "C12": dict(
         mc=[("MC_Dests.cfg", {"MaxMsgs": 4}), ("MC_BufFaults.cfg", {"MaxMsgs": 4})],
         # the code before the repair F12 (failure reports logged inline while the buffer is re-delivered) must be rejected
@@ -97,7 +97,7 @@ PLAN = {
 def capacity_histories(tier):
     """More messages than the start-up buffer holds (the REAL capacity, 1000), then the first add_destinations."""
     progs = []
-    for n in ((1000, 1001) if tier == "quick" else (999, 1000, 1001, 2500)):
+    for n in ((1000, 1001, 2003) if tier == "quick" else (999, 1000, 1001, 1999, 2000, 2001, 2500, 3001, 4100)):   # (multiples of the capacity: a buffer trimmed in bulk)
         ops = [{"op": "Log", "c": 1, "ty": "m"} for _ in range(n)]
         ops += [{"op": "AddGlobal", "c": 1, "f": "g1", "v": 1}, {"op": "AddDests", "c": 1, "S": [1, 2]}, {"op": "Log", "c": 1, "ty": "m"},
                 {"op": "AddDests", "c": 1, "S": [3]}, {"op": "Log", "c": 1, "ty": "m"}, {"op": "RemoveDest", "c": 1, "d": 2}, {"op": "Log", "c": 1, "ty": "m"}]
@@ -189,6 +189,14 @@ def run(prop, tier):
         if plan.get("extra"):
             import checks_conc_extra
             getattr(checks_conc_extra, plan["extra"])(rep, tier)
+        if plan.get("route"):
+            # which logger receives a message when loggers are mixed; failure reports always reach the destinations (spec/Route.tla)
+            import checks_route
+            checks_route.run_route(rep, tier)
+        if plan.get("fork"):
+            # the same abstract programs with every context but the first a pre-forked worker PROCESS (checks_fork.py)
+            import checks_fork
+            checks_fork.run_fork(rep, tier)
         if plan.get("deferred"):
             # the Deferred face of the property (spec/Deferred.tla): end-message clauses for C03, context clauses for C04
             import checks_deferred
